@@ -384,7 +384,14 @@ pub struct FsPlan {
 
 pub fn fs_plan(tier: Tier) -> FsPlan {
     let worlds = fsworld::worlds(tier.pick(3, 4), &NAMES, 3);
-    let globs = fs_globs(3);
+    let mut globs = fs_globs(3);
+    // case flags in walked globs (the generated alphabet has none): the per-component programs
+    // the walker prunes with must carry the flags of the whole expression
+    for g in ["(?i)A", "(?i)A/*", "(?i)A/**", "(?i){A,B}/*", "a/(?i)B", "(?i)A/(?-i)b", "(?i)*/A", "**/(?i)A", "(?i).A/*", "(?i)<A/:1,2>b"] {
+        if model::build_ok(g).is_some() {
+            globs.push(g.to_string());
+        }
+    }
     let special_globs = fs_globs(2);
     let spelling_globs = fs_globs(tier.pick(1, 2));
     FsPlan { worlds, globs, special_globs, spelling_globs }
